@@ -3,7 +3,7 @@ from facts import AnalysisBroken
 from model import (path_value, norm_cond, ret_value_class, dstr, strip, fact_holds, mentions_field, mentions_call, mentions_var,
                    mentions_enum, const_value, walk)
 from props.scan_common import check_build_exit_codes
-from rules import (absent_from, guarded, calls_to, field_writes, who_may_call, must_pass, dominated_by,
+from rules import (deep_resolve, absent_from, guarded, calls_to, field_writes, who_may_call, must_pass, dominated_by,
                    full_range, loops_over, every_iteration_passes, basename, error_discipline,
                    origins, reject_if, skip_conditions_exact, is_enum, is_field, atom_cmp,
                    anything, reached_only_via, unwrap_conv)
@@ -229,7 +229,7 @@ def run(ctx):
     for bid, b in rm.blocks.items():
         for i, s2 in enumerate(b['succ']):
             efs = rm.edge_facts(bid, i, all=True)
-            if s2 is None or not any(pol is True and mentions_call(atom, 'Builder::Build') and mentions_enum(atom, 'ExitSuccess')
+            if s2 is None or not any(pol is True and mentions_call(deep_resolve(rm, atom), 'Builder::Build') and mentions_enum(atom, 'ExitSuccess')
                                      for k, pol, atom in efs):
                 continue
             nrm += 1
